@@ -2,12 +2,15 @@
 pub mod c01;
 pub mod c02;
 pub mod c03;
+pub mod c04;
 pub mod c06;
 pub mod c08;
 pub mod c11;
 pub mod c12;
 pub mod c13;
 pub mod c14;
+pub mod c15;
+pub mod c16;
 pub mod c17;
 pub mod c20;
 pub mod common;
@@ -27,11 +30,14 @@ pub const PROPS: &[Prop] = &[
     Prop { id: "C01", run: c01::run, dbg_part: true, rule: c01::RULE, assumptions: c01::ASSUMPTIONS },
     Prop { id: "C02", run: c02::run, dbg_part: true, rule: c02::RULE, assumptions: c02::ASSUMPTIONS },
     Prop { id: "C03", run: c03::run, dbg_part: true, rule: c03::RULE, assumptions: c03::ASSUMPTIONS },
+    Prop { id: "C04", run: c04::run, dbg_part: false, rule: c04::RULE, assumptions: c04::ASSUMPTIONS },
     Prop { id: "C06", run: c06::run, dbg_part: true, rule: c06::RULE, assumptions: c06::ASSUMPTIONS },
     Prop { id: "C08", run: c08::run, dbg_part: false, rule: c08::RULE, assumptions: c08::ASSUMPTIONS },
     Prop { id: "C12", run: c12::run, dbg_part: true, rule: c12::RULE, assumptions: c12::ASSUMPTIONS },
     Prop { id: "C13", run: c13::run, dbg_part: true, rule: c13::RULE, assumptions: c13::ASSUMPTIONS },
     Prop { id: "C14", run: c14::run, dbg_part: true, rule: c14::RULE, assumptions: c14::ASSUMPTIONS },
+    Prop { id: "C15", run: c15::run, dbg_part: false, rule: c15::RULE, assumptions: c15::ASSUMPTIONS },
+    Prop { id: "C16", run: c16::run, dbg_part: false, rule: c16::RULE, assumptions: c16::ASSUMPTIONS },
     Prop { id: "C17", run: c17::run, dbg_part: true, rule: c17::RULE, assumptions: c17::ASSUMPTIONS },
     Prop { id: "C20", run: c20::run, dbg_part: true, rule: c20::RULE, assumptions: c20::ASSUMPTIONS },
 ];
